@@ -256,6 +256,32 @@ def cauchyG (x : List α) : List α := x.map (fun xi => 2 * xi / (1 + dot x x))
 def quadraticF (a : List α) (A : List (List α)) (x : List α) : α := dot x (vadd a (smul (1 / 2) (mulVec A x)))
 def quadraticG (a : List α) (A : List (List α)) (x : List α) : List α := vadd a (mulVec A x)
 
+/-! ### elastic-net prototypes (elastic_net.h / elastic_net.cpp, linear.cpp) -/
+
+/-- the per-sample kernels of `loss_mse_t`, `loss_mae_t`, `loss_cauchy_t`, `loss_hinge_t`, `loss_logistic_t`
+    (elastic_net.h:58-170): value and derivative in the output `o` for the target `t` -/
+def enetMseV (t o : α) : α := 1 / 2 * ((o - t) * (o - t))
+def enetMseG (t o : α) : α := o - t
+def enetCauchyV (t o : α) : α := log ((o - t) * (o - t) + 1)
+def enetCauchyG (t o : α) : α := 2 * (o - t) / (1 + (o - t) * (o - t))
+def enetHingeV (t o : α) : α := max0 (1 + -o * t)
+def enetHingeG (t o : α) : α := -t * (sign' (1 + -o * t) * (1 / 2) + 1 / 2)
+def enetLogisticV (t o : α) : α := log (1 + exp (-o * t))
+def enetLogisticG (t o : α) : α := -t * exp (-o * t) / (1 + exp (-o * t))
+
+/-- `synthetic_linear_t::outputs`: `inputs * w + bopt` for every sample (one output) -/
+def enetOutputs (A : List (List α)) (b : α) (x : List α) : List α := (mulVec A x).map (fun y => y + b)
+
+/-- `function_enet_t::do_vgrad`, value: `loss(outputs, targets) / N + alpha1 * |x|_1 + 0.5 * |sqrt(alpha2) x|²` -/
+def enetF (kV : α → α → α) (a1 a2 : α) (A : List (List α)) (b : α) (t x : List α) : α :=
+  sum2 kV t (enetOutputs A b x) / (t.length : α) + a1 * sumL (x.map abs')
+    + 1 / 2 * dot (smul (sqrt a2) x) (smul (sqrt a2) x)
+
+/-- gradient: `ggᵀ inputs / N + alpha1 * sign(x) + alpha2 * x` -/
+def enetG (kG : α → α → α) (a1 a2 : α) (A : List (List α)) (b : α) (t x : List α) : List α :=
+  vadd ((tmulVec x.length A (map2 kG t (enetOutputs A b x))).map (fun v => v / (t.length : α)))
+    (vadd (smul a1 (x.map sign')) (smul a2 x))
+
 /-! ### constraint kinds (constraint.cpp:50-125) -/
 
 /-- `euclidean_ball_t`: `(x - origin).squaredNorm() - radius * radius`, `2 * (x - origin)` -/
